@@ -7,6 +7,7 @@ from vmon.gen import scriptgen as G
 from vmon.checks import c05
 
 PROPERTY = "C06"
+PRELOAD_NETWORK_ORDERS = [["btc", "xtn", "ltc", "bch", "grs", "doge", "dash", "btg"], ["btg", "grs", "bch", "doge", "ltc", "xtn", "btc"]]
 LEVEL = "exploration"
 TECHNIQUE = "offline checker over mutate/re-validate histories on live signed transactions: pycoin's per-input verdict vs the reference interpreter's re-verification of the mutated transaction, a digest-commitment consistency layer, and a fresh-object comparison after every step"
 RULE = ("histories: a fully signed transaction (generator of C05: all standard puzzle kinds x hash types ALL/NONE/SINGLE x ANYONECANPAY, "
